@@ -1,3 +1,6 @@
+mod bcval;
+mod c11;
+mod c14;
 mod checks;
 mod corpus;
 mod engine;
